@@ -291,6 +291,41 @@ void cop(string *a) {
   case "memstat":
     rec("MEMSTAT " + (sizeof(a) > 1 ? a[1] : ""));
     break;
+  case "pinfo":   // pinfo <file>: structural description of a loaded program
+    o = find_object(a[1]);
+    if (!o) rec("PINFO " + a[1] + " none");
+    else {
+      string d; int h;
+      catch(dump_prog(o, 3, "/pdump.txt"));
+      d = read_file("/pdump.txt");
+      if (!d) d = "";
+      // address-dependent parts are taken out before the checksum: the order column of the function table (sorted by the
+      // address of the shared name string), the raw code bytes (string switch tables hold string addresses) and the order of
+      // string switch table entries (sorted by address; they are summed order-independently)
+      {
+        string l, *tk; int hu, hl, k;
+        h = 0; hu = 0; n = 0;
+        foreach (l in explode(d, "\n")) {
+          tk = filter_array(explode(replace_string(l, "\t", " "), " "), (: $1 != "" :));
+          if (!sizeof(tk)) continue;
+          if (sizeof(tk) >= 4 && tk[0][<1] == ':' && to_int(tk[2]) + "" == tk[2]) tk[2] = "#";
+          if (strlen(l) > 6 && l[0] == '\t' && l[5] == ':') continue;
+          l = implode(tk, " ");
+          hl = 7;
+          for (k = 0; k < strlen(l); k++) hl = (hl * 131 + l[k]) % 1000000007;
+          n++;
+          if (tk[0][0] == '"' && sizeof(tk) == 2) hu = (hu + hl) % 1000000007;
+          else h = (h * 31 + hl) % 1000000007;
+        }
+        h = (h + hu) % 1000000007;
+      }
+      rec("PINFO " + a[1] + " fn=" + implode(sort_array(functions(o, 0), 1), ",") + " var=" + implode(variables(o, 0), ",") + " inh=" + implode(inherit_list(o), ",") + " dump=" + n + ":" + h);
+    }
+    break;
+  case "pdump":   // pdump <file>: the whole program dump, one record per line (for looking at a replay)
+    o = find_object(a[1]);
+    if (o) { string d, l; catch(dump_prog(o, 3, "/pdump.txt")); d = read_file("/pdump.txt"); if (d) foreach (l in explode(d, "\n")) rec("PD " + l); }
+    break;
   case "dkids":   // destruct every clone of /vobj that is not one of the permanent w* helpers (also half-created ones)
     foreach (o in children("/vobj")) { string t; t = o->me(); if (o != find_object("/vobj") && (strlen(t) < 2 || t[0] != 'w' || t[1] < '0' || t[1] > '9')) destruct(o); }
     break;
@@ -598,7 +633,7 @@ void do_op(string op) {
   case "wclone": case "wload": case "whold": case "wdump": case "walk": case "lname": case "wmove": case "wmoves": case "wdest":
     wop(a);
     break;
-  case "mk": case "put": case "cyc": case "uncyc": case "share": case "cov": case "covf": case "itv": case "drop": case "clearall": case "rb": case "many": case "use": case "memstat": case "rcall": case "dslot": case "dkids":
+  case "mk": case "put": case "cyc": case "uncyc": case "share": case "cov": case "covf": case "itv": case "drop": case "clearall": case "rb": case "many": case "use": case "memstat": case "rcall": case "dslot": case "dkids": case "pinfo": case "pdump":
     cop(a);
     break;
   case "uclone": case "uload": case "useteuid": case "uexport": case "uids": case "ucall": case "ucf": case "uvs": case "umclone":
